@@ -6,16 +6,47 @@
 //!   raw <seed> <n>                              -> R r1..rn              (Rng::next_raw)
 //!   stream <ty> <form> <s> <e> <seed> <n>       -> R v1..vn | P          (Rng::next(range))
 //!   copy <seed> <k> <n>                         -> R a1..an b1..bn       (k draws, copy, n draws each)
-//!   shufs <k> raw1..rawk <m> e1..em             -> R e'1..e'm | P        (shuffle, scripted source)
+//!   copy <seed> <k> <n> <how>                   -> the same line; the duplicate is made by <how> = copy | clone |
+//!                                                  clonefrom | cell | byval  (X = an internal consistency check failed)
+//!   shufs <k> raw1..rawk <m> e1..em [<elem>]    -> R e'1..e'm | P        (shuffle, scripted source)
+//!        <elem> = i64 (default) | string | arr5 | u8 | box | sub <a> <b>: the slice holds Strings / [u64; 5] / u8 /
+//!        Box<i64> tagged with the position, or is the middle part of a longer vector (a elements before, b after);
+//!        the line printed is the one the i64 run must print; X = a tag was damaged / padding was touched /
+//!        the same shuffle of a slice of zero-sized elements panicked
 //!   shufr <n> <k> seed1..seedk                  -> R (n numbers per seed)(shuffle of 0..n, real Rng)
+//!   mix <gen> <seed> <k> op1..opk               -> R o1 .. oj   one observation per operation, P ends the line
+//!        <gen> = rng | g53 | gc1 | gsm | g11 | g0c | gmax | gswap | geven (LinearCongruentialGenerator64<A, C> with
+//!        other constants, see mix_dispatch) | const | static | tls (Rng::from_seed in a const / static / thread_local
+//!        Cell initialiser; the seed given must be the compiled-in one)
+//!        op = d:<ty>:<form>:<s>:<e> (next(range) -> value) | f:<sbits>:<ebits> (next(f64 range) -> bits) |
+//!             r (next_raw) | k:<n> (n dropped next_raw, then one printed) | s:<m> (shuffle 0..m -> a,b,c or -) |
+//!             c:<how> (duplicate as in `copy`; the original's next_raw is printed, the history continues on the duplicate)
+//!   time                                        -> R <seed> r1 r2 r3 | X : Rng::from_time() behaves as
+//!        Rng::from_seed(seed) for a seed between the clock readings (ns since the epoch) taken around the call;
+//!        a second generator made 2 ms later has a later seed
 //! searches (used by extra(), never by a proof):
 //!   orders <n> <nseeds> <seed0>                 -> O <distinct> <chi2*1000> <min> <max>
 //!   witness <n> <limit>                         -> W seed per order (lexicographic rank order) | W fail <found>
 //!   period <k> <seed> <n> <maxp>                -> T <smallest p <= maxp with x[i]=x[i+p] for all i, or 0>
+//!   shufbig <n> <seed>                          -> B ok <fixed points> | B diff <index> | B state
+//!        (Rng::shuffle of 0..n against Fisher-Yates written here over next_raw of a second generator)
+//!   poschi <n> <nseeds> <seed0>                 -> C <chi2*1000> <min> <max>  (element x position counts)
 //!   <form> is one of range incl to toincl full; unused bounds are given as 0.
+use rlib_rand::lcg::LinearCongruentialGenerator64 as Lcg;
 use rlib_rand::randomable::Randomable;
 use rlib_rand::{Rand, Rng};
+use std::cell::Cell;
 use vh::{guarded, p};
+
+/// `from_seed` is a `const fn`: generators built at compile time (treap_node.rs does this in a thread_local)
+const CONST_SEED: u64 = 7;
+const STATIC_SEED: u64 = 0x0123_4567_89AB_CDEF;
+const TLS_SEED: u64 = u64::MAX - 41;
+const G_CONST: Rng = Rng::from_seed(CONST_SEED);
+static G_STATIC: Rng = Rng::from_seed(STATIC_SEED);
+thread_local! {
+    static G_TLS: Cell<Rng> = Cell::new(Rng::from_seed(TLS_SEED));
+}
 
 /// a source replaying given raw words; running past the script panics
 struct Scripted {
@@ -96,8 +127,205 @@ fn gen_one(ty: &str, form: &str, s: i128, e: i128, raw: u64) -> i128 {
     by_type!(ty, draw, form, s, e, raw)
 }
 
-fn rng_one(ty: &str, form: &str, s: i128, e: i128, g: &mut Rng) -> i128 {
+fn rng_one<G: Rand>(ty: &str, form: &str, s: i128, e: i128, g: &mut G) -> i128 {
     by_type!(ty, rng_draw, form, s, e, g)
+}
+
+fn ident<const A: u64, const C: u64>(g: Lcg<A, C>) -> Lcg<A, C> {
+    g
+}
+
+fn advance_by_value<const A: u64, const C: u64>(mut g: Lcg<A, C>) -> u64 {
+    g.next_raw()
+}
+
+/// a duplicate of `*g` made in the way `how`; None = an internal consistency check failed
+fn copy_of<const A: u64, const C: u64>(g: &Lcg<A, C>, how: &str) -> Option<Lcg<A, C>> {
+    match how {
+        "copy" => {
+            let h = *g;
+            Some(h)
+        }
+        "clone" => Some(g.clone()),
+        "clonefrom" => {
+            let mut h = Lcg::<A, C>::from_seed(0xDEAD_BEEF_0BAD_F00D);
+            h.next_raw();
+            h.clone_from(g);
+            Some(h)
+        }
+        "cell" => {
+            // the pattern of treap_node.rs: get, draw, set
+            let cell = Cell::new(*g);
+            let h = cell.get();
+            let mut t = cell.get();
+            let ra = t.next_raw();
+            cell.set(t);
+            let mut t = cell.get();
+            let rb = t.next_raw();
+            cell.set(t);
+            let mut o = *g;
+            if o.next_raw() != ra || o.next_raw() != rb || o.next_raw() != cell.into_inner().next_raw() {
+                return None;
+            }
+            Some(h)
+        }
+        "byval" => {
+            let h = ident(*g);
+            let r = advance_by_value(*g);
+            let mut o = *g;
+            if o.next_raw() != r {
+                return None;
+            }
+            Some(h)
+        }
+        other => {
+            eprintln!("harness: unknown way of copying {}", other);
+            std::process::exit(3)
+        }
+    }
+}
+
+fn join_list(v: &[usize]) -> String {
+    if v.is_empty() {
+        "-".to_string()
+    } else {
+        v.iter().map(|x| x.to_string()).collect::<Vec<_>>().join(",")
+    }
+}
+
+/// a history of different operations on ONE generator
+fn run_mix<const A: u64, const C: u64>(mut g: Lcg<A, C>, ops: &[&str]) -> String {
+    let mut out = vec!["R".to_string()];
+    for op in ops {
+        let f: Vec<&str> = op.split(':').collect();
+        let r: Option<String> = guarded(|| match f[0] {
+            "d" => rng_one(f[1], f[2], p(f[3]), p(f[4]), &mut g).to_string(),
+            "f" => {
+                let s = f64::from_bits(p::<u64>(f[1]));
+                let e = f64::from_bits(p::<u64>(f[2]));
+                let x: f64 = g.next(s..e);
+                x.to_bits().to_string()
+            }
+            "r" => g.next_raw().to_string(),
+            "k" => {
+                let n: u64 = p(f[1]);
+                for _ in 0..n {
+                    g.next_raw();
+                }
+                g.next_raw().to_string()
+            }
+            "s" => {
+                let m: usize = p(f[1]);
+                let mut v: Vec<usize> = (0..m).collect();
+                g.shuffle(&mut v);
+                join_list(&v)
+            }
+            "c" => match copy_of(&g, f[1]) {
+                Some(h) => {
+                    let r = g.next_raw();
+                    g = h;
+                    r.to_string()
+                }
+                None => "X".to_string(),
+            },
+            other => {
+                eprintln!("harness: unknown mix operation {}", other);
+                std::process::exit(3)
+            }
+        });
+        match r {
+            Some(s) => {
+                let stop = s == "X";
+                out.push(s);
+                if stop {
+                    break;
+                }
+            }
+            None => {
+                out.push("P".to_string());
+                break;
+            }
+        }
+    }
+    out.join(" ")
+}
+
+fn fixed_seed(name: &str, given: u64, compiled: u64) {
+    if given != compiled {
+        eprintln!("harness: generator {} is compiled with seed {}, the case says {}", name, compiled, given);
+        std::process::exit(3)
+    }
+}
+
+fn mix_dispatch(gen: &str, seed: u64, ops: &[&str]) -> String {
+    match gen {
+        "rng" => run_mix(Rng::from_seed(seed), ops),
+        "g53" => run_mix(Lcg::<5, 3>::from_seed(seed), ops),
+        "gc1" => run_mix(Lcg::<6364136223846793005, 1>::from_seed(seed), ops),
+        "gsm" => run_mix(Lcg::<0xd1342543de82ef95, 0x9E3779B97F4A7C15>::from_seed(seed), ops),
+        "g11" => run_mix(Lcg::<1, 1>::from_seed(seed), ops),
+        "g0c" => run_mix(Lcg::<0, 12345>::from_seed(seed), ops),
+        "gmax" => run_mix(Lcg::<{ u64::MAX }, { u64::MAX }>::from_seed(seed), ops),
+        "gswap" => run_mix(Lcg::<1442695040888963407, 6364136223846793005>::from_seed(seed), ops),
+        "geven" => run_mix(Lcg::<6364136223846793004, 1442695040888963406>::from_seed(seed), ops),
+        "const" => {
+            fixed_seed(gen, seed, CONST_SEED);
+            run_mix(G_CONST, ops)
+        }
+        "static" => {
+            fixed_seed(gen, seed, STATIC_SEED);
+            run_mix(G_STATIC, ops)
+        }
+        "tls" => {
+            fixed_seed(gen, seed, TLS_SEED);
+            run_mix(G_TLS.with(|c| c.get()), ops)
+        }
+        other => {
+            eprintln!("harness: unknown generator {}", other);
+            std::process::exit(3)
+        }
+    }
+}
+
+fn now_nanos() -> u64 {
+    std::time::SystemTime::now().duration_since(std::time::UNIX_EPOCH).unwrap().as_nanos() as u64
+}
+
+/// the seed in [t0, t1] whose generator starts with the raws r (from_seed is compared with from_time)
+fn seed_in_window(t0: u64, t1: u64, r: &[u64; 3]) -> Option<u64> {
+    if t1 < t0 || t1 - t0 > 200_000_000 {
+        return None;
+    }
+    (t0..=t1).find(|&s| {
+        let mut g = Rng::from_seed(s);
+        g.next_raw() == r[0] && g.next_raw() == r[1] && g.next_raw() == r[2]
+    })
+}
+
+fn time_once() -> Option<String> {
+    let t0 = now_nanos();
+    let mut g = Rng::from_time();
+    let t1 = now_nanos();
+    std::thread::sleep(std::time::Duration::from_millis(2));
+    let u0 = now_nanos();
+    let mut h = Rng::from_time();
+    let u1 = now_nanos();
+    let rg = [g.next_raw(), g.next_raw(), g.next_raw()];
+    let rh = [h.next_raw(), h.next_raw(), h.next_raw()];
+    let sg = seed_in_window(t0, t1, &rg)?;
+    let sh = seed_in_window(u0, u1, &rh)?;
+    if sh <= sg {
+        return None;
+    }
+    Some(format!("R {} {} {} {}", sg, rg[0], rg[1], rg[2]))
+}
+
+/// shuffle m tagged elements of type T with the scripted source; the tags in their new order (None: a tag is damaged)
+fn shuffle_tagged<T, Mk: Fn(usize) -> T, Un: Fn(&T) -> Option<usize>>(raws: &[u64], m: usize, mk: Mk, un: Un) -> Option<Vec<usize>> {
+    let mut v: Vec<T> = (0..m).map(mk).collect();
+    let mut src = Scripted { raws: raws.to_vec(), pos: 0 };
+    src.shuffle(&mut v);
+    v.iter().map(un).collect()
 }
 
 fn fmt_opt(v: Option<i128>) -> String {
@@ -179,7 +407,11 @@ fn main() {
             for _ in 0..k {
                 g.next_raw();
             }
-            let mut h = g; // Copy
+            let how = if t.len() > 4 { t[4] } else { "copy" };
+            let mut h = match copy_of(&g, how) {
+                Some(h) => h,
+                None => return "X".to_string(),
+            };
             let mut out = vec!["R".to_string()];
             let mut bs = vec![];
             // interleaved on purpose: a shared hidden state would show up as a difference
@@ -194,12 +426,130 @@ fn main() {
             let k: usize = p(t[1]);
             let raws: Vec<u64> = (0..k).map(|i| p(t[2 + i])).collect();
             let m: usize = p(t[2 + k]);
-            let mut v: Vec<i64> = (0..m).map(|i| p(t[3 + k + i])).collect();
-            let mut src = Scripted { raws, pos: 0 };
-            src.shuffle(&mut v);
-            let mut out = vec!["R".to_string()];
-            out.extend(v.iter().map(|x| x.to_string()));
-            out.join(" ")
+            let vals: Vec<i64> = (0..m).map(|i| p(t[3 + k + i])).collect();
+            let elem = if t.len() > 3 + k + m { t[3 + k + m] } else { "i64" };
+            // the same shuffle of zero-sized elements: nothing to observe, but it must not panic when this one does not
+            let zst_ok = guarded(|| {
+                let mut z = vec![(); m];
+                let mut s2 = Scripted { raws: raws.clone(), pos: 0 };
+                s2.shuffle(&mut z);
+            })
+            .is_some();
+            let res: Option<Option<Vec<i64>>> = guarded(|| match elem {
+                "i64" => {
+                    let mut v = vals.clone();
+                    let mut src = Scripted { raws: raws.clone(), pos: 0 };
+                    src.shuffle(&mut v);
+                    Some(v)
+                }
+                "sub" => {
+                    let a: usize = p(t[4 + k + m]);
+                    let b: usize = p(t[5 + k + m]);
+                    let pad = |i: usize| 0x5A5A_0000_0000i64 + i as i64;
+                    let mut full: Vec<i64> = (0..a).map(pad).collect();
+                    full.extend(vals.iter());
+                    full.extend((0..b).map(|i| pad(a + i)));
+                    let mut src = Scripted { raws: raws.clone(), pos: 0 };
+                    src.shuffle(&mut full[a..a + m]);
+                    let before_ok = (0..a).all(|i| full[i] == pad(i));
+                    let after_ok = (0..b).all(|i| full[a + m + i] == pad(a + i));
+                    if before_ok && after_ok && full.len() == a + m + b {
+                        Some(full[a..a + m].to_vec())
+                    } else {
+                        None
+                    }
+                }
+                _ => {
+                    let idx = match elem {
+                        "string" => shuffle_tagged(&raws, m, |i| format!("element-{}", i), |s: &String| s.strip_prefix("element-")?.parse().ok()),
+                        "box" => shuffle_tagged(&raws, m, |i| Box::new(i), |b: &Box<usize>| Some(**b)),
+                        "u8" => {
+                            if m > 256 {
+                                eprintln!("harness: u8 elements need m <= 256");
+                                std::process::exit(3)
+                            }
+                            shuffle_tagged(&raws, m, |i| i as u8, |b: &u8| Some(*b as usize))
+                        }
+                        "arr5" => shuffle_tagged(
+                            &raws,
+                            m,
+                            |i| {
+                                let x = i as u64;
+                                [x, !x, x.wrapping_mul(0x9E3779B97F4A7C15), x ^ 0xABCD, x + 1]
+                            },
+                            |a: &[u64; 5]| {
+                                let x = a[0];
+                                if a[1] == !x && a[2] == x.wrapping_mul(0x9E3779B97F4A7C15) && a[3] == x ^ 0xABCD && a[4] == x + 1 {
+                                    Some(x as usize)
+                                } else {
+                                    None
+                                }
+                            },
+                        ),
+                        other => {
+                            eprintln!("harness: unknown element type {}", other);
+                            std::process::exit(3)
+                        }
+                    };
+                    match idx {
+                        Some(ix) if ix.iter().all(|&i| i < m) => Some(ix.iter().map(|&i| vals[i]).collect()),
+                        _ => None,
+                    }
+                }
+            });
+            match res {
+                None => "P".to_string(),
+                Some(None) => "X".to_string(),
+                Some(Some(_)) if !zst_ok => "X".to_string(),
+                Some(Some(v)) => {
+                    let mut out = vec!["R".to_string()];
+                    out.extend(v.iter().map(|x| x.to_string()));
+                    out.join(" ")
+                }
+            }
+        }
+        "mix" => {
+            let k: usize = p(t[3]);
+            mix_dispatch(t[1], p(t[2]), &t[4..4 + k])
+        }
+        "time" => {
+            // the clock may step between two readings: three attempts
+            (0..3).find_map(|_| time_once()).unwrap_or_else(|| "X".to_string())
+        }
+        "shufbig" => {
+            let n: usize = p(t[1]);
+            let seed: u64 = p(t[2]);
+            let mut g = Rng::from_seed(seed);
+            let mut v: Vec<usize> = (0..n).collect();
+            g.shuffle(&mut v);
+            let mut h = Rng::from_seed(seed);
+            let mut w: Vec<usize> = (0..n).collect();
+            for i in 1..n {
+                let j = (h.next_raw() % (i as u64 + 1)) as usize;
+                w.swap(i, j);
+            }
+            match (0..n).find(|&i| v[i] != w[i]) {
+                Some(i) => format!("B diff {}", i),
+                None if g.next_raw() != h.next_raw() => "B state".to_string(),
+                None => format!("B ok {}", (0..n).filter(|&i| v[i] == i).count()),
+            }
+        }
+        "poschi" => {
+            let n: usize = p(t[1]);
+            let nseeds: u64 = p(t[2]);
+            let seed0: u64 = p(t[3]);
+            let mut cnt = vec![0u64; n * n];
+            for i in 0..nseeds {
+                let mut g = Rng::from_seed(seed0.wrapping_add(i.wrapping_mul(0x9E3779B97F4A7C15)));
+                let mut v: Vec<usize> = (0..n).collect();
+                g.shuffle(&mut v);
+                for (pos, &x) in v.iter().enumerate() {
+                    cnt[pos * n + x] += 1;
+                }
+            }
+            let exp = nseeds as f64 / n as f64;
+            let chi2: f64 = cnt.iter().map(|&c| (c as f64 - exp) * (c as f64 - exp) / exp).sum();
+            format!("C {} {} {}", (chi2 * 1000.0) as u64, cnt.iter().min().unwrap(), cnt.iter().max().unwrap())
         }
         "shufr" => {
             let n: usize = p(t[1]);
